@@ -20,3 +20,16 @@ func WrapTracer(ctx sdk.Context, tracer corevm.EVMLogger) corevm.EVMLogger {
 	}
 	return tracer
 }
+
+// AtFunc, when set, is called at every linearisation point marked with At (hook H3): the
+// harness uses it as a scheduler gate (it may block until the step is granted) and/or to
+// record the step with a sequence number. It must be installed before the observed objects
+// are created. proc names the code path, label the point; args identify the objects involved.
+var AtFunc func(proc, label string, args ...interface{})
+
+// At reports a linearisation point to AtFunc when one is installed and returns immediately otherwise.
+func At(proc, label string, args ...interface{}) {
+	if f := AtFunc; f != nil {
+		f(proc, label, args...)
+	}
+}
